@@ -320,6 +320,8 @@ func runC07(r *core.Run) (bool, string) {
 				c.runScale()
 			case "locate":
 				c.runLocate()
+			case "groups":
+				c.runGroups()
 			}
 		}
 		return false, "VERIF_C07_ONLY=" + only + ": only the named families were run"
@@ -342,6 +344,7 @@ func runC07(r *core.Run) (bool, string) {
 	c.runScale()
 	t7 := time.Now()
 	c.runLocate()
+	c.runGroups()
 	t8 := time.Now()
 	r.Set("phase_seconds", map[string]float64{"witnesses": t1.Sub(t0).Seconds(), "stdlib": t2.Sub(t1).Seconds(), "catalogue": t3.Sub(t2).Seconds(), "mixtures": t4.Sub(t3).Seconds(), "mutants": t5.Sub(t4).Seconds(), "stress": t6.Sub(t5).Seconds(), "scale": t7.Sub(t6).Seconds(), "locate": t8.Sub(t7).Seconds()})
 
